@@ -1,5 +1,6 @@
 """Engine facade: builds S1..S4 once per run and hands them to the rules."""
 from __future__ import annotations
+import ast
 import os
 import time
 from typing import Dict, List, Optional
@@ -74,6 +75,50 @@ def _prune_type_dead_none_tests(prog: Program, types) -> int:
     return n
 
 
+_PLAIN_MODES = ("CBC", "CTR", "ECB", "OFB", "CFB", "CFB8", "XTS")
+_AEAD_MODES = ("GCM",)
+
+
+def _refine_cipher_contexts(eng) -> int:
+    """pyca types `Cipher(...).decryptor()` by the *static* type of the mode: behind an annotation such as `Cipher[Any]` (a helper that builds the
+    cipher) the checker picks the first overload, the AEAD context, for every mode.  Where the receiver of update / finalize / ... is a local whose
+    one binding is, once locals are resolved, `Cipher(<algorithm>, <Mode>(...)).decryptor()` / `.encryptor()`, the mode named in the source decides:
+    a plain mode gives CipherContext, GCM the AEAD context.  (Spelling-independent counterpart of what the type checker does on the direct call.)"""
+    import re
+    from .rules.common import resolve_all
+    n = 0
+    for fn in eng.prog.all_functions():
+        for s in eng.cg.calls_in(fn):
+            if not (isinstance(s.node, ast.Call) and isinstance(s.node.func, ast.Attribute) and s.ext):
+                continue
+            if not any(x.split(".")[-2] in ("AEADDecryptionContext", "AEADEncryptionContext", "AEADCipherContext", "CipherContext") for x in s.ext if x.count(".") >= 1):
+                continue
+            try:
+                texts = resolve_all(eng, fn, s.node.func.value)
+            except Exception:
+                continue
+            modes = set()
+            for t_ in texts:
+                m = re.search(r"Cipher\(.*?,\s*(?:modes\.)?([A-Z][A-Za-z0-9]*)\(", t_)
+                modes.add(m.group(1) if m else None)
+            if len(modes) != 1 or None in modes:
+                continue
+            mode = modes.pop()
+            new = []
+            for x in s.ext:
+                parts = x.split(".")
+                if len(parts) >= 2 and parts[-2] in ("AEADDecryptionContext", "AEADEncryptionContext", "AEADCipherContext") and mode in _PLAIN_MODES:
+                    parts[-2] = "CipherContext"
+                elif len(parts) >= 2 and parts[-2] == "CipherContext" and mode in _AEAD_MODES:
+                    side = [t_ for t_ in texts if ".decryptor()" in t_]
+                    parts[-2] = "AEADDecryptionContext" if side else "AEADEncryptionContext"
+                new.append(".".join(parts))
+            if new != list(s.ext):
+                s.ext[:] = new
+                n += 1
+    return n
+
+
 class Engine:
     def __init__(self, repo: Optional[str] = None, typed: bool = True):
         t0 = time.time()
@@ -83,6 +128,7 @@ class Engine:
         self.type_pruned = _prune_type_dead_none_tests(self.prog, self.types) if typed else 0
         self.cg = CallGraph(self.prog, self.types)
         self.flow = Flow(self.prog, self.cg)
+        self.ctx_refined = _refine_cipher_contexts(self)
         self.build_s = time.time() - t0
 
     @property
